@@ -299,7 +299,11 @@ def impl(c):
         return ("ok", [t["name"] for t in r[1]["tiers"]]) if r[0] == "ok" else r
     if op == "u_num":
         pat = c["kw"] + r" ?= ?" + ("-?" if c["neg"] else "") + r"([\d.]+(?:[eE][-+]?\d+)?)\s*$"
-        m = re.search(pat, c["s"], flags=re.MULTILINE | re.ASCII if c.get("ascii") else re.MULTILINE)
+        if c.get("ascii"):
+            # the model reads \d as the ASCII digits (numerals are ASCII) but \s as Python's Unicode white space, like
+            # the code's pattern without re.ASCII; re.ASCII would narrow \s as well (\x1c is white space only for str)
+            pat = pat.replace(r"\d", "0-9", 1).replace(r"\d", "[0-9]")
+        m = re.search(pat, c["s"], flags=re.MULTILINE)
         return ("ok", None if m is None else m.groups()[0])
     if op == "u_text":
         pat = c["kw"] + r' ?= ?"(.*)"\s*$'
